@@ -387,3 +387,71 @@ func c06EmbeddedNil(c *Ctx, r *Result) {
 	}
 	r.Floor("R06-embednil", n, 2)
 }
+
+// ---- machine-checked premises of reviewed entries ---------------------------------------------------
+
+// Some reviewed entries rest on a fact about another construct. Where that fact is itself a shape
+// of the code it is re-established on every run; when it no longer holds, the entries that rest on
+// it are void and their obligations are findings again.
+var c06ReviewedPremise = map[string]string{
+	"interpreter.(*sinkRuntime).createRule#assert:rt.baseRuntime.node.Children[:][*].Runtime.Eval()#0.(float64)#0":                     "sink-detail-types",
+	"interpreter.(*sinkRuntime).createRule#assert:rt.baseRuntime.node.Children[:][*].Runtime.Eval()#0.(map[interface{}]interface{})#0": "sink-detail-types",
+	"interpreter.(*sinkRuntime).makeStringList#assert:child.Runtime.Eval()#0.([]interface{})#0":                                        "sink-detail-types",
+}
+
+// c06Premises evaluates the premises; a non-empty string is the reason a premise fails.
+func c06Premises(c *Ctx, oc *obligCtx) map[string]string {
+	out := map[string]string{}
+	// sink-detail-types: the constructor of every sink detail kind stores the constant value type
+	// that the consumers assert (list / map / int), in the runtime whose Eval checks it
+	want := map[string]string{"kindmatch": "list", "scopematch": "list", "suppresses": "list", "statematch": "map", "priority": "int"}
+	fVal := c.Field("interpreter", "sinkDetailRuntime", "valType")
+	if oc.prov == nil || fVal == nil {
+		out["sink-detail-types"] = "provider table / sinkDetailRuntime.valType not found"
+		return out
+	}
+	var kinds []string
+	for k := range want {
+		kinds = append(kinds, k)
+	}
+	sort.Strings(kinds)
+	for _, k := range kinds {
+		ctor := oc.prov.Kind2Ctor[k]
+		if ctor == nil {
+			out["sink-detail-types"] = "no constructor registered for " + k
+			break
+		}
+		got := ""
+		found := false
+		var scan func(fn *ssa.Function, d int)
+		scan = func(fn *ssa.Function, d int) {
+			if d > 3 || len(fn.Blocks) == 0 {
+				return
+			}
+			allInstrs(fn, func(in ssa.Instruction) {
+				switch x := in.(type) {
+				case *ssa.Store:
+					if fa, ok := x.Addr.(*ssa.FieldAddr); ok && fieldVar(fa) == fVal {
+						found = true
+						if s, ok := constString(x.Val); ok {
+							got = s
+						} else {
+							got = "<" + accessPath(x.Val) + ">"
+						}
+					}
+				case *ssa.Call:
+					if f := x.Call.StaticCallee(); f != nil && c.modFuncSet[f] && c.PkgOf(f) == "interpreter" && f.Signature.Results().Len() == 1 &&
+						strings.HasSuffix(f.Signature.Results().At(0).Type().String(), "parser.Runtime") {
+						scan(f, d+1)
+					}
+				}
+			})
+		}
+		scan(ctor, 0)
+		if !found || got != want[k] {
+			out["sink-detail-types"] = fmt.Sprintf("the runtime of sink detail `%s` is constructed with value type %q, not the constant %q its consumers rely on", k, got, want[k])
+			break
+		}
+	}
+	return out
+}
